@@ -54,12 +54,48 @@ def env_base():
 #   timeout  : seconds for the whole job
 # --------------------------------------------------------------------------
 
-def J(test, checks=None, shards=1, race=False, env=None, procs=None, timeout=900, count=1, shrink="20s"):
+def J(test, checks=None, shards=1, race=False, env=None, procs=None, timeout=900, count=1, shrink="20s", steps=None):
     return dict(test=test, checks=checks, shards=shards, race=race, env=env or {}, procs=procs,
-                timeout=timeout, count=count, shrink=shrink)
+                timeout=timeout, count=count, shrink=shrink, steps=steps)
 
 
 PROPS = {
+    "C16": dict(
+        level="exploration",
+        rule="rapid cases: publisher kind {root, clone, filtered clone} x handler behaviour {fast, microsecond delay, slower than the producer, blocked on a harness channel then released} x Close moment {before the publisher is ready (first list gated), publisher shut down before ready, mid-stream, after the stream, never} x streams of 0-300 create/update/delete events in bursts between barriers; a recording handler logs every callback (kind, object, overlap counter, whether Done had been observed) and a witness subscription is created back-to-back with the monitor. Oracle: OnInitialize at most once, first, with the publisher's cache at readiness; callbacks == witness events one for one (type and object identity), a prefix when closed mid-stream, an in-order subsequence when the handler was blocked beyond the buffer; never overlapping; none after Done was observed; none at all when the publisher died before ready. Non-trivial = >= 20 callbacks of all three types with a slow/blocked handler or a mid-stream Close; distinct = hash of history.",
+        assumptions=["typed monitors are compared with untyped ones in the C20 differential"],
+        quick=[J("TestC16_Monitor", checks=150, shards=8, procs=[2, 4, 8, 16])],
+        thorough=[J("TestC16_Monitor", checks=4000, shards=16, procs=[1, 2, 4, 8, 16], timeout=2400)],
+    ),
+    "C12": dict(
+        level="fault_enumeration",
+        rule="shutdown-point enumeration: a rapid-drawn workload of n <= 14 steps (release of the gated first list, server changes, attaches of all kinds incl. monitors, refilters, node closes, stalled consumers, server-side watch disconnects with connect errors (retry timer pending), relists left pending at the gate) is re-run n+1 times on fresh worlds and the shutdown trigger {Close, 4 concurrent Close, context cancel, list error} is fired after step k for every k in 0..n, with up to 5 generated API calls {Subscribe*, Clone*, Refilter, NewMonitor, Close, Cache().List/Get} racing with it and all ten call kinds re-issued on every node after Done. Oracle: Close() returns and Done() closes within the wedge bound; every node done; zero goroutines created by library code (context still live unless it was the trigger); every call returns ErrNotRunning or a value; objects obtained while racing become done. Non-trivial = some shutdown point hit a pending relist, a pending reconnect timer, concurrent Close calls, or a not-yet-ready root with racing API calls; distinct = (trigger, gating, workload).",
+        assumptions=["the fake client returns from List/Watch once its context is cancelled (the property's premise)", "wedge bound 10 s, confirmed once with 25 s more, against sub-millisecond normal latencies"],
+        quick=[J("TestC12_ShutdownPoints", checks=120, shards=8, procs=[2, 4, 8, 16])],
+        thorough=[J("TestC12_ShutdownPoints", checks=2500, shards=16, procs=[1, 2, 4, 8, 16], timeout=2400),
+                  J("TestC12_ShutdownPoints", checks=600, shards=4, env={"GODEBUG": "asynctimerchan=1"}, timeout=2400)],
+    ),
+    "C11": dict(
+        level="exploration",
+        rule="rapid: (a) quiet tree state machine (all six attach kinds + monitors, depth <= 4) with 'close any node' as an operation, closed-set and survivor oracles after every operation; (b) one close per case at a generated moment {before the root is ready (first list gated), mid-stream with traffic in flight, during a Refilter issued from another goroutine, during a gated relist, quiet} by a generated mechanism {Close of any node; root: context cancel, fatal list error of 5 kinds}, then further traffic/Subscribe/Refilter on the survivors. Oracle: closed set == subtree of the closed node (Done closed, Events closed after buffered events); every other node has Done/Events open, converges at the next barrier with an exact strict mirror, accepts Subscribe and Refilter, receives fresh events; root closes: everything done and no library goroutine left. Non-trivial = the closed node is internal (has descendants) and has a live sibling with traffic after the close (or is the root); distinct = hash of history.",
+        assumptions=["joins as tree nodes are exercised by C09's close oracle, not here", "interleavings are perturbed, not enumerated"],
+        quick=[J("TestC11_Machine", checks=500, shards=4), J("TestC11_Moments", checks=500, shards=6, procs=[2, 4, 8, 16])],
+        thorough=[J("TestC11_Machine", checks=15000, shards=8, timeout=2400), J("TestC11_Moments", checks=20000, shards=8, procs=[1, 2, 4, 16], timeout=2400)],
+    ),
+    "C10": dict(
+        level="exploration",
+        rule="rapid cases: a generated tree (plain subscribers of the root, of clones and of filtered clones, filtered subscriptions, monitors), a generated subset of plain subscribers stalled (never reading) and of monitors with a handler blocked on a harness channel, others slow; a stream of 0..4xEventBufsiz events in bursts of <= EventBufsiz/4 paced by double-marker barriers over the healthy nodes only (each barrier also checks every healthy cache and strict mirror); then the stalled consumers are released. Oracles: barriers complete; the controller's witness holds exactly the published sequence; healthy siblings agree with their publisher's witness; each released consumer delivers at least min(sent-to-it, EventBufsiz) events and what it delivers is an in-order subsequence of what was sent to it. Non-trivial = >= 1 stalled consumer that was sent more than EventBufsiz events, with a healthy sibling under the same publisher; distinct = hash of the history.",
+        assumptions=["no upper bound on what a stalled consumer holds and no prefix-ness is asserted (the statement promises neither)", "typed subscriptions as stalled consumers are covered by the C20 differential, not here"],
+        quick=[J("TestC10_SlowConsumers", checks=60, shards=12, procs=[2, 4, 8, 16])],
+        thorough=[J("TestC10_SlowConsumers", checks=1500, shards=16, procs=[1, 2, 4, 8, 16], timeout=2400)],
+    ),
+    "C05": dict(
+        level="exploration",
+        rule="rapid state machine: trees of plain Subscribe/Clone up to depth 3 over a real controller; the stream (up to several hundred create/update/delete events over 6 keys) is published in bursts with at most EventBufsiz/4 events in flight between double-marker barriers; subscribers attach at generated moments, consumers read with generated per-event delays, the logger perturbs the schedule, GOMAXPROCS varies per shard. Oracle: each leaf's log is exactly a suffix ref[i:] of the published sequence with i <= the number of events published when its Subscribe/Clone returned; after each received event the leaf's Cache().Get never returns an older version. Non-trivial = >= 3 leaves at >= 2 depths, >= 1 subscriber attached after events were published, >= 50 events; distinct = hash of the history.",
+        assumptions=["cases in which the harness itself overran a buffer are discarded and counted (none expected by construction)", "interleavings are perturbed, not enumerated"],
+        quick=[J("TestC05_FanOut", checks=50, shards=16, steps=50, procs=[1, 2, 4, 8, 16])],
+        thorough=[J("TestC05_FanOut", checks=1500, shards=32, steps=60, procs=[1, 2, 4, 8, 16], timeout=2400)],
+    ),
     "C08": dict(
         level="exploration",
         rule="bounded-exhaustive: all 46656 orders of length 6 over {parent becomes ready, Refilter(equal), Refilter(new), parent event, parent cache change, subscribe} x 12 variants (immediate/deferred x subscription/clone x node depth 1..3), the first list gated so that 'parent becomes ready' is a step; after every step Ready() of every node must be closed iff the readiness model says so, no event may precede Ready, the listing taken at the instant Ready is observed must equal the filtered parent content, caches/mirrors must match the reference (quick: every 40th order); plus rapid orders fired back-to-back under schedule perturbation incl. failing first lists (nothing ever ready, everything done). Non-trivial = the order has a Refilter before and after parent readiness, or a parent event/change after parent readiness (random: or a failing first list); distinct = (variant, order).",
@@ -196,6 +232,8 @@ def run_jobs(prop, tier, jobs, seed, workdir, log):
         rseed = seed_for(seed, prop, j["test"], s)
         if j["checks"] is not None:
             args += [f"-rapid.checks={j['checks']}", f"-rapid.seed={rseed}", f"-rapid.shrinktime={j['shrink']}"]
+            if j.get("steps"):
+                args.append(f"-rapid.steps={j['steps']}")
         e = env_base()
         e.update({
             "VERIF_STATS_DIR": statsdir,
